@@ -188,7 +188,7 @@ def run_case(case):
                 fail("exception:%s" % type(e).__name__, "lsdrf raised %s: %s (opts %s)" % (type(e).__name__, e, _o(opts)))
                 continue
             judge(tree, opts, got, fail)
-            if opts.get("cli") and (opts["include_drf"] or opts["include_dmd"]):
+            if opts.get("cli") and (opts["include_drf"] or opts["include_dmd"]) and not opts.get("start_us") and not opts.get("end_us"):
                 # the same listing asked for on the command line (drf ls): same files in the same order
                 res.cls("drf-ls-command")
                 try:
